@@ -448,9 +448,38 @@ impl Prop for C03 {
                 _ => None,
             }
         };
+        // an empty value attached with `=` (`--name=`): the occurrence is complete in itself, the
+        // item to its right never becomes its value, whatever that item is
+        let empty_value: Option<(Vec<u8>, Vec<u8>)> = if bytes.len() % 4 == 1 {
+            let dd = argv_a.iter().position(|a| a.as_slice() == b"--").unwrap_or(argv_a.len());
+            argv_a[..dd].iter().find_map(|it| {
+                let eq = it.iter().position(|b| *b == b'=')?;
+                if it.starts_with(b"--")
+                    && eq + 1 < it.len()
+                    && argv_a.iter().filter(|x| *x == it).count() == 1
+                {
+                    Some((it.clone(), it[..=eq].to_vec()))
+                } else {
+                    None
+                }
+            })
+        } else {
+            None
+        };
+        if empty_value.is_some() {
+            ctx.class("empty-value-attached-with-equals");
+        }
         let subst = |argv: &mut Vec<Vec<u8>>| {
             if let Some((w, new)) = &substitution {
                 for it in argv.iter_mut() {
+                    if it == w {
+                        *it = new.clone();
+                    }
+                }
+            }
+            if let Some((w, new)) = &empty_value {
+                let dd = argv.iter().position(|a| a.as_slice() == b"--").unwrap_or(argv.len());
+                for it in argv[..dd].iter_mut() {
                     if it == w {
                         *it = new.clone();
                     }
